@@ -66,7 +66,7 @@ func (r *ruleState) scheduleRules(tr *TxRec, req *ReqRec, pre, post *tables.Tabl
 			s.Probes["schedule_deleted"]++
 			continue
 		}
-		if a.String() == b.String() {
+		if a.Eq(b) {
 			continue
 		}
 		if scheduleImmutableSig(a) != scheduleImmutableSig(b) {
@@ -415,10 +415,30 @@ func (r *ruleState) convergenceBudget() int {
 	if cfg.Coroutines < len(BackgroundNames) {
 		cycles *= len(BackgroundNames)
 	}
-	if cycles > 4000 {
-		cycles = 4000
+	r.budgetCapped = false
+	if cycles > 150 {
+		// the backlog needs more cycles than a run can afford: grant what fits
+		// and do not judge convergence of this run
+		cycles = 150
+		r.budgetCapped = true
 	}
 	return cycles
+}
+
+// cfgClass names the extreme configuration knobs of a run (part of the
+// fingerprint of convergence violations).
+func (s *Sim) cfgClass() string {
+	var parts []string
+	if s.Cfg.AioSize <= 2 || s.Cfg.StoreQ <= 2 {
+		parts = append(parts, "tinyq")
+	}
+	if s.Cfg.Coroutines < len(BackgroundNames) {
+		parts = append(parts, "pool<5")
+	}
+	if len(parts) == 0 {
+		return "sizes>=2"
+	}
+	return strings.Join(parts, ",")
 }
 
 func (r *ruleState) onQuiesceEnd(rounds int) {
@@ -427,16 +447,25 @@ func (r *ruleState) onQuiesceEnd(rounds int) {
 	if !s.alive {
 		return
 	}
-	now := s.Now
+	step := s.Cfg.SignalTimeoutMs
+	if step <= 0 {
+		step = 1
+	}
+	// whatever became due during the last two background periods may still be in progress
+	now := s.Now - 2*step
 	last := s.Last
+	if r.budgetCapped {
+		s.Probes["convergence_budget_capped"]++
+		return
+	}
 	if s.pendingWork() || s.sys == nil {
-		s.violate("C11.not_quiescent", P("C11", "C12"), "kernel", "queues not empty after the convergence window", "")
+		s.violate("C11.not_quiescent", P("C11", "C12"), "kernel", "queues not empty after the convergence window ["+s.cfgClass()+"]", "")
 	}
 	if s.bgEnabled("TimeoutPromises") {
 		for _, id := range tables.SortedKeys(last.Promises) {
 			p := last.Promises[id]
-			if p.State == 1 && p.Timeout <= now {
-				s.violate("C11.promise_overdue", P("C11", "C04"), "promise", "pending past its timeout after the convergence window", fmt.Sprintf("now %d rounds %d: %s", now, rounds, p))
+			if p.State == 1 && p.Timeout <= now && (p.CreatedOn == nil || *p.CreatedOn <= now) {
+				s.violate("C11.promise_overdue", P("C11", "C04"), "promise", "pending past its timeout after the convergence window ["+s.cfgClass()+"]", fmt.Sprintf("now %d rounds %d: %s", now, rounds, p))
 				break
 			}
 		}
@@ -445,15 +474,27 @@ func (r *ruleState) onQuiesceEnd(rounds int) {
 		for _, id := range tables.SortedKeys(last.Locks) {
 			l := last.Locks[id]
 			if l.ExpiresAt <= now {
-				s.violate("C11.lock_overdue", P("C11", "C09"), "lock", "lock past its lease after the convergence window", fmt.Sprintf("now %d rounds %d: %s", now, rounds, l))
+				s.violate("C11.lock_overdue", P("C11", "C09"), "lock", "lock past its lease after the convergence window ["+s.cfgClass()+"]", fmt.Sprintf("now %d rounds %d: %s", now, rounds, l))
 				break
 			}
 		}
 	}
-	if s.bgEnabled("SchedulePromises") {
+	// a schedule whose occurrences arrive about as fast as firing cycles never catches up and,
+	// being the most overdue, is always served first: with a batch smaller than the number of
+	// schedules it keeps the others waiting as well
+	hog := false
+	for _, sc := range last.Schedules {
+		if per := schedulePeriod(sc); per > 0 && per <= 2*step && len(last.Schedules) > s.Cfg.ScheduleBatch {
+			hog = true
+		}
+	}
+	if hog {
+		s.Probes["schedule_rate_too_high_skipped"]++
+	}
+	if s.bgEnabled("SchedulePromises") && !hog {
 		for _, id := range tables.SortedKeys(last.Schedules) {
 			sc := last.Schedules[id]
-			if r.fastSchedules[id] {
+			if per := schedulePeriod(sc); r.fastSchedules[id] || (per > 0 && per <= 2*step) {
 				s.Probes["schedule_rate_too_high_skipped"]++
 				continue
 			}
@@ -461,7 +502,7 @@ func (r *ruleState) onQuiesceEnd(rounds int) {
 				continue
 			}
 			if sc.NextRunTime <= now {
-				s.violate("C11.schedule_overdue", P("C11", "C10"), "schedule", "next run time in the past after the convergence window", fmt.Sprintf("now %d rounds %d: %s", now, rounds, sc))
+				s.violate("C11.schedule_overdue", P("C11", "C10"), "schedule", "next run time in the past after the convergence window ["+s.cfgClass()+"]", fmt.Sprintf("now %d rounds %d: %s", now, rounds, sc))
 				break
 			}
 		}
@@ -470,7 +511,7 @@ func (r *ruleState) onQuiesceEnd(rounds int) {
 		for _, id := range tables.SortedKeys(last.Tasks) {
 			t := last.Tasks[id]
 			if (t.State == 2 || t.State == 4) && (t.ExpiresAt <= now || t.Timeout <= now) {
-				s.violate("C11.task_overdue", P("C11", "C07"), "task", "enqueued or claimed task past its lease or timeout after the convergence window", fmt.Sprintf("now %d rounds %d: %s", now, rounds, t))
+				s.violate("C11.task_overdue", P("C11", "C07"), "task", "enqueued or claimed task past its lease or timeout after the convergence window ["+s.cfgClass()+"]", fmt.Sprintf("now %d rounds %d: %s", now, rounds, t))
 				break
 			}
 		}
@@ -486,7 +527,7 @@ func (r *ruleState) onQuiesceEnd(rounds int) {
 					}
 				}
 				if still {
-					s.violate("C11.task_undispatched", P("C11", "C08"), "task", "dispatchable task never dispatched during the convergence window", fmt.Sprintf("root %q, rounds %d", root, rounds))
+					s.violate("C11.task_undispatched", P("C11", "C08"), "task", "dispatchable task never dispatched during the convergence window ["+s.cfgClass()+"]", fmt.Sprintf("root %q, rounds %d", root, rounds))
 					break
 				}
 			}
